@@ -315,7 +315,7 @@ Lemma step_good : forall c r st a,
   end.
 Proof.
   intros c r st a Hs Hr Ha I. pose proof (st_meta_good r st I) as Hm.
-  destruct a as [k|d|n|k vs|v|w]; cbn [step].
+  destruct a as [k|d|n|k vs|v|w|n|k vs]; cbn [step].
   - destruct (reply_json error_json st k) as [j|p] eqn:E; [|exact Logic.I].
     destruct (replied st); [exact Logic.I|]. split.
     + intros Hh. exact (I Hh).
@@ -330,6 +330,10 @@ Proof.
   - split; [exact I|]. cbn [action_ok] in Ha. apply forallb_evgood_rgood, token_good, Ha.
   - destruct (run_w c (rres r) w) as [out|p] eqn:E; [|exact Logic.I]. split; [exact I|].
     apply forallb_evgood_rgood. exact (run_w_good c (rres r) w out Hr E).
+  - destruct (rhttp r) eqn:Hh; cbn [negb]; [|split; [exact I|reflexivity]]. destruct (replied st); [exact Logic.I|].
+    split; [|reflexivity]. intros Hf. rewrite Hh in Hf. discriminate Hf.
+  - destruct (rhttp r) eqn:Hh; cbn [negb]; [|split; [exact I|reflexivity]]. destruct (replied st); [exact Logic.I|].
+    split; [|reflexivity]. intros Hf. rewrite Hh in Hf. discriminate Hf.
 Qed.
 
 Lemma run_script_good : forall c r s st,
